@@ -657,12 +657,13 @@ impl Harness for C05 {
             // thresholds next to the true number of observations of the abundant k-mer as well
             let obs = reads[0].seq.iter().take_while(|b| **b == reads[0].seq[0]).count() + 1 - k;
             let near = *rng.pick(&[obs - 1, obs, obs + 1, obs + 2, obs + 40, 1, 2]);
-            match rng.below(if huge { 2 } else { 3 }) {
-                // CountFilter's count saturates at 65535: thresholds are either small or safely above
+            match rng.below(if huge { 5 } else { 6 }) {
+                // CountFilter's count saturates at 65535: thresholds are either small (two times in
+                // three: the saturated row and its extensions are then in the table) or safely above
                 // the true count (at most ~20 further observations can come from the tails), where
                 // "accepted iff observed at least n times" and the saturating count agree: rejected
-                0 => Summ::Count(*rng.pick(&[1usize, 2, 3, obs + 50, obs + 1000, 2 * obs, usize::MAX])),
-                1 => Summ::CountSet(near),
+                0..=2 => Summ::Count(*rng.pick(&[1usize, 1, 2, 3, 1, 2, obs + 50, obs + 1000, usize::MAX])),
+                3 | 4 => Summ::CountSet(near),
                 _ => Summ::Record(near),
             }
         } else if many {
